@@ -10,6 +10,7 @@ import (
 	"strconv"
 	"strings"
 	"sync"
+	"time"
 )
 
 // Root is /verif unless overridden.
@@ -80,6 +81,10 @@ type Recorder struct {
 	lastFail *Failure
 	allFails []Failure
 	keepAll  bool
+	// native-fuzz mode: every worker process owns one recorder; candidates are written at once
+	// (the fuzz engine, not the recorder, decides when the process ends)
+	fuzzDir   string
+	lastFlush time.Time
 }
 
 // TB is the subset of testing.TB / *rapid.T the recorder needs.
@@ -126,7 +131,31 @@ func NewRecorder(id string) *Recorder {
 	if out := os.Getenv("VERIF_OUT"); out != "" {
 		r.out = filepath.Join(out, fmt.Sprintf("shard-%d.json", r.res.Shard))
 	}
+	if fd := os.Getenv("VERIF_FUZZ_DIR"); fd != "" {
+		r.fuzzDir = fd
+		os.MkdirAll(filepath.Join(fd, "candidates"), 0o755)
+		r.out = filepath.Join(fd, fmt.Sprintf("stats-%d.json", os.Getpid()))
+	}
 	return r
+}
+
+// FuzzMode reports whether this process is a native-fuzz worker (or coordinator).
+func FuzzMode() bool { return os.Getenv("VERIF_FUZZ_DIR") != "" }
+
+// Tick flushes the counters of a fuzz worker every few seconds (workers are killed, not ended).
+func (r *Recorder) Tick() {
+	if r.fuzzDir == "" {
+		return
+	}
+	r.mu.Lock()
+	due := time.Since(r.lastFlush) > 3*time.Second
+	if due {
+		r.lastFlush = time.Now()
+	}
+	r.mu.Unlock()
+	if due {
+		r.Flush(true)
+	}
 }
 
 func Hash(parts ...string) uint64 {
@@ -217,6 +246,12 @@ func (r *Recorder) Violation(t TB, sig, msg string, c any) bool {
 	}
 	raw, _ := json.Marshal(c)
 	f := Failure{Signature: sig, Message: msg, Case: raw}
+	if r.fuzzDir != "" {
+		// candidate for the driver, which confirms it by a plain replay in a fresh process
+		b, _ := json.Marshal(map[string]any{"property": r.res.Property, "signature": sig, "message": msg, "case": json.RawMessage(raw)})
+		name := fmt.Sprintf("%016x.json", Hash(sig, string(raw)))
+		os.WriteFile(filepath.Join(r.fuzzDir, "candidates", name), b, 0o644)
+	}
 	r.mu.Lock()
 	r.lastFail = &f
 	if r.keepAll {
@@ -282,7 +317,11 @@ func WorkDir() string {
 	if d == "" {
 		d = filepath.Join(os.TempDir(), "verif-work")
 	}
-	d = filepath.Join(d, fmt.Sprintf("s%d", EnvInt("VERIF_SHARD", 0)))
+	if FuzzMode() {
+		d = filepath.Join(d, fmt.Sprintf("fz%d", os.Getpid()))
+	} else {
+		d = filepath.Join(d, fmt.Sprintf("s%d", EnvInt("VERIF_SHARD", 0)))
+	}
 	os.MkdirAll(d, 0o755)
 	return d
 }
@@ -296,6 +335,10 @@ func WriteCurrent(c any) {
 	}
 	b, err := json.Marshal(c)
 	if err != nil {
+		return
+	}
+	if fd := os.Getenv("VERIF_FUZZ_DIR"); fd != "" {
+		os.WriteFile(filepath.Join(fd, fmt.Sprintf("current-%d.json", os.Getpid())), b, 0o644)
 		return
 	}
 	os.WriteFile(filepath.Join(out, fmt.Sprintf("shard-%d.current", EnvInt("VERIF_SHARD", 0))), b, 0o644)
